@@ -126,7 +126,7 @@ class C02(C01):
         tr = impl.get("trace", {})
         k = 0
         if "internals" in impl and not impl.get("chop_error") and not impl.get("unrealisable") and not impl.get("extreme"):
-            why = pc.compare_with_model(impl, model[0])
+            why = pc.compare_with_model(impl, model[0], level=self.compare_level)
             if why:
                 return why
             k = 1
